@@ -11,7 +11,7 @@ TABLES = {
     "pattern": dict(test="TestTablePattern", module="PatternCheck", env={"quick": {"VERIF_PATTERN_LEN": "4"}, "thorough": {"VERIF_PATTERN_LEN": "5"}}),
     "calllist": dict(test="TestTableCallList", module="CallListCheck", env={"quick": {"VERIF_CALL_LEN": "5"}, "thorough": {"VERIF_CALL_LEN": "6"}}),
     "coldiff": dict(test="TestTableCollectionDiff", module="CollDiffCheck", env={"quick": {"VERIF_DIFF_LEN": "3"}, "thorough": {"VERIF_DIFF_LEN": "4"}}),
-    "gc": dict(test="TestTableGC", module="GCCheck", env={"quick": {"VERIF_GC_NODES": "3"}, "thorough": {"VERIF_GC_NODES": "4"}}),
+    "gc": dict(test="TestTableGC", module="GCCheck", env={"quick": {"VERIF_GC_NODES": "3"}, "thorough": {"VERIF_GC_NODES": "3", "VERIF_GC_SAMPLE4": "1500"}}),
     "subjects": dict(test="TestTableSubjects", module="SubjectCheck", pkg="gw", env={"quick": {"VERIF_SUBJ_LEN": "3"}, "thorough": {"VERIF_SUBJ_LEN": "4"}}),
     "origin": dict(test="TestTableOrigin", module="OriginCheck", pkg="gw", env={"quick": {"VERIF_ORIGIN_LEN": "3"}, "thorough": {"VERIF_ORIGIN_LEN": "3", "VERIF_ORIGIN_EXT": "1"}}),
     "httpstatus": dict(test="TestTableHTTPStatus", module="HttpStatusCheck", pkg="gw", env={}),
